@@ -38,6 +38,7 @@ type cfg struct {
 	MaxReq   int
 	Elapsed  time.Duration // -1 = retries disabled
 	DynHdr   bool
+	Event      bool // an event is dispatched too, and its dispatcher then waits for events (the shutdown sequence)
 	BrokenBody bool // upstream outcome 1 is "202 Accepted, but the response body cannot be read to its end" instead of a 503
 	CustomHdr  bool // a static custom header named like the first dynamic header (the dynamic one is then ignored, the others stay)
 	Dyn2     bool // two dynamic-header names (region, service); series with both, with one of them twice, with one, with none
@@ -56,7 +57,7 @@ func (c cfg) per() int {
 }
 
 func (c cfg) String() string {
-	return fmt.Sprintf("D%d-B%d-s%d-m%d-r%d-el%v-dyn%v%v-f%d-bad%v-t%d-z%v-p%d", c.D, c.Batches, c.Slots, c.Merge, c.MaxReq, c.Elapsed, c.DynHdr, c.Dyn2, c.Failures, c.BadUTF8, c.Ticks, c.Compress, c.PerBatch) + map[bool]string{true: "-brokenbody"}[c.BrokenBody] + map[bool]string{true: "-customhdr"}[c.CustomHdr]
+	return fmt.Sprintf("D%d-B%d-s%d-m%d-r%d-el%v-dyn%v%v-f%d-bad%v-t%d-z%v-p%d", c.D, c.Batches, c.Slots, c.Merge, c.MaxReq, c.Elapsed, c.DynHdr, c.Dyn2, c.Failures, c.BadUTF8, c.Ticks, c.Compress, c.PerBatch) + map[bool]string{true: "-event"}[c.Event] + map[bool]string{true: "-brokenbody"}[c.BrokenBody] + map[bool]string{true: "-customhdr"}[c.CustomHdr]
 }
 
 type attempt struct {
@@ -73,6 +74,7 @@ type run struct {
 	h         *statsd.HttpForwarderHandlerV2
 	mock      *clock.Mock
 	attempts  []attempt
+	evPosts   int
 	failsLeft int
 	returned  []int // per datapoint id: 0 not yet, else the tick count at which its dispatch returned
 	ticksDone int
@@ -92,6 +94,13 @@ type upstream struct{ r *run }
 func (u upstream) RoundTrip(req *http.Request) (*http.Response, error) {
 	if err := req.Context().Err(); err != nil {
 		return nil, err // a real transport does not send a request whose context is already done
+	}
+	if strings.HasSuffix(req.URL.Path, "/event") {
+		io.ReadAll(req.Body)
+		req.Body.Close()
+		vsched.Access(u.r.obj, true, "upstream-event")
+		u.r.evPosts++
+		return &http.Response{StatusCode: 202, Status: "202", Header: http.Header{}, Body: io.NopCloser(strings.NewReader("")), Request: req}, nil
 	}
 	raw, _ := io.ReadAll(req.Body)
 	req.Body.Close()
@@ -175,6 +184,16 @@ func body(c cfg, r *run) func(*vsched.Exec) {
 		r.h = h
 		vsched.GoNamed("fwd.Run", func() { h.Run(ctx) })
 		vsched.Quiesce("started") // start-up no-op post done, consolidator ticker armed at t=0
+		if c.Event {
+			vsched.GoNamed("event", func() {
+				h.DispatchEvent(ctx, &gostatsd.Event{Title: "deploy", Text: "x"})
+				h.WaitForEvents() // what the server does at shutdown, right after its last event
+				vsched.Access(r.obj, false, "wait-for-events-returned")
+				if r.evPosts == 0 {
+					r.fail("wait-for-events-early", "WaitForEvents returned although the event accepted just before had not been handed upstream yet")
+				}
+			})
+		}
 		for d := 0; d < c.D; d++ {
 			d := d
 			vsched.GoNamed(fmt.Sprintf("dispatcher%d", d), func() {
@@ -334,8 +353,8 @@ func check(c cfg, r *run, outcomes map[string]struct{}) func(*vsched.Exec, vsche
 		if cn[1] != cn[2]+cn[4] {
 			return "counters-dont-add-up", fmt.Sprintf("created=%d sent=%d dropped=%d at quiescence", cn[1], cn[2], cn[4])
 		}
-		if cn[2] != sent+1 {
-			return "sent-counter", fmt.Sprintf("%d bodies succeeded (+1 start-up no-op) but sent=%d", sent, cn[2])
+		if cn[2] != sent+1+uint64(r.evPosts) {
+			return "sent-counter", fmt.Sprintf("%d bodies succeeded (+1 start-up no-op, +%d event posts) but sent=%d", sent, r.evPosts, cn[2])
 		}
 		if cn[3] != retried {
 			return "retried-counter", fmt.Sprintf("%d retries observed but retried=%d", retried, cn[3])
@@ -433,6 +452,7 @@ func configs() []cfg {
 		{D: 2, Batches: 1, Slots: 2, Merge: 1, MaxReq: 2, Elapsed: 3 * time.Second, DynHdr: true, Failures: 0, Ticks: 2},
 		{D: 2, Batches: 1, Slots: 1, Merge: 1, MaxReq: 1, Elapsed: 3 * time.Second, BadUTF8: true, Failures: 0, Ticks: 2},
 		{D: 1, Batches: 1, PerBatch: 4, Slots: 1, Merge: 1, MaxReq: 2, Elapsed: 3 * time.Second, Dyn2: true, Failures: 0, Ticks: 1},
+		{D: 1, Batches: 1, Slots: 1, Merge: 1, MaxReq: 1, Elapsed: 3 * time.Second, Failures: 0, Ticks: 1, Event: true},
 		{D: 1, Batches: 1, PerBatch: 4, Slots: 1, Merge: 1, MaxReq: 2, Elapsed: 3 * time.Second, Dyn2: true, CustomHdr: true, Failures: 0, Ticks: 1},
 		{D: 1, Batches: 2, Slots: 1, Merge: 1, MaxReq: 1, Elapsed: 3 * time.Second, Failures: 2, Ticks: 1, BrokenBody: true},
 		// two compressed bodies of one flush in flight together, one of them retried
